@@ -150,10 +150,10 @@ type sScope struct {
 }
 
 func (e sEv) lean(string) string    { return "ev (" + e.term + ")" }
-func (sSkip) lean(string) string     { return "skip" }
-func (sRet) lean(string) string      { return "ret" }
-func (d sDefer) lean(string) string  { return "defer (" + d.term + ")" }
-func (s sScope) lean(string) string  { return "scope " + s.name }
+func (sSkip) lean(string) string    { return "skip" }
+func (sRet) lean(string) string     { return "ret" }
+func (d sDefer) lean(string) string { return "defer (" + d.term + ")" }
+func (s sScope) lean(string) string { return "scope " + s.name }
 func (s sSeq) lean(ind string) string {
 	if len(s.parts) == 0 {
 		return "skip"
